@@ -379,13 +379,17 @@ Qed.
 
 Theorem send_prefix s c r c' :
   slow_ok c -> send s false None c = (r, c') ->
-  exists sent rest,
-    s = sent ++ rest /\ wr (io c') = wr (io c) ++ sent /\ any_in (blacklist c) sent = false /\
-    ((r = Ret tt /\ rest = []) \/ (r = EIllegal /\ any_in (blacklist c) (firstn SEND_SLICE rest) = true)).
+  (r = Ret tt /\ wr (io c') = wr (io c) ++ s /\ any_in (blacklist c) s = false) \/
+  (r = EIllegal /\ c' = c /\ any_in (blacklist c) s = true).
 Proof.
-  intros Hs H. unfold send in H.
-  destruct (send_loop_nrb_spec _ _ _ _ _ _ _ Hs (Nat.lt_succ_diag_r _) H) as (sent & rest & A & B & C & _ & D).
-  exists sent, rest. auto.
+  intros Hs H. unfold send in H. destruct (any_in (blacklist c) s) eqn:Ebl.
+  - injection H as <- <-. right. auto.
+  - left.
+    destruct (send_loop_nrb_spec _ _ _ _ _ _ _ Hs (Nat.lt_succ_diag_r _) H) as (sent & rest & A & B & C & _ & D).
+    destruct D as [[-> ->] | [-> D]].
+    + rewrite app_nil_r in A. subst sent. auto.
+    + exfalso. rewrite A, any_in_app in Ebl. apply orb_false_iff in Ebl. destruct Ebl as [_ E2].
+      rewrite <- (firstn_skipn SEND_SLICE rest), any_in_app in E2. apply orb_false_iff in E2. destruct E2 as [E2 _]. congruence.
 Qed.
 
 (* sendcontrol: exactly one byte, ord(c) - 64, bypassing the black-list *)
